@@ -21,7 +21,7 @@ RULE = ("case = layout (1..8 entries: any integer type / REAL32 / REAL64 with it
         "length at several offsets; Hypothesis draws layouts, frames and values. Oracle: big-integer "
         "bit-field model (read = field of F, write changes exactly the field's bits, length = ceil(total/8)). Entries may be "
         "record members mapped by numeric sub-index, and may declare LowLimit/HighLimit (advisory) with values "
-        "written on both sides of them. "
+        "written on both sides of them; the same objects may have been mapped with other lengths before clear(). "
         "Non-trivial = layout has a field with offset % 8 != 0 or length % 8 != 0; distinct = canonical JSON.")
 ASSUMPTIONS = [
     "only values inside the field's range are written (the quantifier says 'all 2^len field values')",
@@ -32,7 +32,7 @@ BUDGET = {"quick": 150, "thorough": 400}
 SUB8 = (rc.INTEGER8, rc.UNSIGNED8)
 
 
-def make_map(layout, pre=None, via="add", pre_same=None, own_clear=True, reread=0):
+def make_map(layout, pre=None, via="add", pre_same=None, own_clear=True, reread=0, pre_len=None):
     """Build RPDO 1 of a fresh RemoteNode with `layout`.
     via='add'      add_variable() per entry
     via='from_od'  the mapping is described by the dictionary (defaults of 0x1400/0x1600) and
@@ -43,6 +43,8 @@ def make_map(layout, pre=None, via="add", pre_same=None, own_clear=True, reread=
     reread         read(from_od=True) is repeated that many times on the same map object
     pre_same       a permutation of range(len(layout)): the SAME objects were mapped in that order
                    before (and looked up through the node), then clear() and the real order
+    pre_len        with pre_same: the bit lengths the objects were mapped with in that earlier mapping
+                   (8-bit objects / BOOLEAN may have been mapped wider or narrower before)
     A layout entry may carry "sub" (1..254): the mapped object is then member `sub` of a record, mapped by
     its numeric sub-index; "lim" [lo, hi]: the object declares these limits (LowLimit/HighLimit)."""
     import canopen
@@ -89,7 +91,7 @@ def make_map(layout, pre=None, via="add", pre_same=None, own_clear=True, reread=
             pmap.clear()
     if pre_same:
         for k in pre_same:
-            add(0x2000 + k, layout[k])
+            add(0x2000 + k, dict(layout[k], len=pre_len[k]) if pre_len else layout[k])
         for k in pre_same:                       # the application looks its variables up ...
             _ = node.rpdo[f"fld{k}.m" if layout[k].get("sub") else f"fld{k}"].offset
             _ = node.pdo[0x2000 + k].offset
@@ -171,7 +173,7 @@ def run_case(case) -> Outcome:
         klass = "signed-subbyte"
     try:
         node, pmap, vars_ = make_map(layout, case.get("pre"), case.get("via", "add"), case.get("pre_same"),
-                                         case.get("own_clear", True), case.get("reread", 0))
+                                         case.get("own_clear", True), case.get("reread", 0), case.get("pre_len"))
         if len(vars_) != len(layout):
             bad("map-size", f"{layout}: {len(vars_)} variables mapped (via {case.get('via', 'add')})")
             return Outcome(nontrivial, klass, D)
@@ -372,6 +374,12 @@ def layout_case(draw):
     if len(layout) >= 2 and draw(st.integers(0, 3)) == 0:
         case["pre_same"] = draw(st.permutations(list(range(len(layout)))))
         case["via"] = "add"
+        if draw(st.booleans()):
+            # ... and some of them with another length then (total stays <= 64: only shrinking or equal)
+            case["pre_len"] = [draw(st.integers(1, e["len"])) if (e["dt"] in SUB8 or e["dt"] == rc.BOOLEAN) and
+                               e["len"] <= 8 else e["len"] for e in layout]
+            case["pre_len"] = [1 if (e["dt"] == rc.BOOLEAN and ln not in (1, 8)) else ln
+                               for e, ln in zip(layout, case["pre_len"])]
     elif draw(st.integers(0, 2)) == 0:
         pre = []
         rem = 64
@@ -429,6 +437,13 @@ def config_path_cases():
                    "ops": [{"var": 0, "v": 21}, {"var": 1, "v": True}, {"var": 2, "v": -4}, {"var": 3, "v": -300},
                            {"var": 4, "v": 200}, {"var": 4, "v": 0}, {"var": 5, "v": -(2 ** 31)},
                            {"var": 5, "v": 2 ** 31 - 1}, {"var": 2, "v": 3}]}
+    # the same objects were mapped with other lengths before clear()
+    lay8 = [{"dt": rc.UNSIGNED8, "len": 8}, {"dt": rc.INTEGER8, "len": 8}, {"dt": rc.BOOLEAN, "len": 8},
+            {"dt": rc.INTEGER8, "len": 3}]
+    for pre_len in ([4, 8, 1, 3], [8, 5, 8, 1], [1, 1, 1, 2]):
+        yield {"layout": lay8, "frame": bytes([0x3C] * 8), "pre_same": [0, 1, 2, 3], "pre_len": pre_len,
+               "lookup": "direct", "ops": [{"var": 0, "v": 200}, {"var": 1, "v": -100}, {"var": 2, "v": True},
+                                           {"var": 3, "v": -4}]}
     for perm in ([3, 2, 1, 0], [1, 0, 3, 2], [2, 3, 0, 1]):
         for lookup in ("node_name", "node_index", "map_name"):
             yield {"layout": lay, "frame": bytes(8), "pre_same": perm, "lookup": lookup,
